@@ -283,7 +283,10 @@ def run_harness(binary, mode, case_lines, tag, as_limit_gb=None, shards=1, timeo
                 resource.setrlimit(resource.RLIMIT_CORE, (0, 0))
             p = subprocess.run([binary, mode, cpath, opath, str(start)], preexec_fn=pre, timeout=timeout,
                                stdout=subprocess.PIPE, stderr=subprocess.STDOUT, text=True,
-                               env=dict(os.environ, AXV_SCRATCH=os.path.join(BUILD, "scratch")))
+                               env=dict(os.environ, AXV_SCRATCH=os.path.join(BUILD, "scratch"),
+                                        # a crash case reopens hundreds of images (and, nested, recoveries of them): its
+                                        # watchdog must not fire under machine load; mt cases carry their own 20 s watchdog
+                                        AXV_CASE_TIMEOUT=os.environ.get("AXV_CASE_TIMEOUT", {"crash": "600", "mt": "90"}.get(mode, "30"))))
             with open(opath) as f:
                 done = len(f.read().splitlines())
             if done >= total:
